@@ -131,6 +131,25 @@ Theorem C09_no_crash : forall role u b q st qs,
 Proof. intros role u b q st qs. exact (conj (post_on_no_crash role u b q) (conj (post_no_crash st q) (post_seq_no_crash qs st))). Qed.
 Print Assumptions C09_no_crash.
 
+(* ... and the model's only other outcome, Hang, is not a property of the code: two fresh names among the observed
+   draws are enough for the post to succeed *)
+Theorem C09_succeeds : forall role u b q r1 r2 rest,
+  q_rnds q = r1 :: r2 :: rest ->
+  let n1 := stamp_name (wrap32 (q_nowA q + 1)) r1 in
+  let n2 := stamp_name (wrap32 (q_nowB q + 1)) r2 in
+  fexists (b_files b) n1 = false -> fexists (b_files b) n2 = false -> n1 <> n2 ->
+  exists r, post_on role u b q = Ok r.
+Proof. exact post_on_succeeds. Qed.
+Print Assumptions C09_succeeds.
+
+(* the (year, month, day) behind the recorded date and the header's time line is a valid calendar date of the local
+   day (t + 8 h) / 86400, for every time of the range (sweep over all 13 290 days against the inverse formula) *)
+Theorem C09_calendar : forall t, 1000000000 <= t < 2147483648 ->
+  let '(y, m, d) := civil ((t + TZ_OFFSET) / 86400) in
+  1 <= m <= 12 /\ 1 <= d <= month_len y m /\ 2001 <= y <= 2038 /\ days_from_civil y m d = (t + TZ_OFFSET) / 86400.
+Proof. exact civil_correct. Qed.
+Print Assumptions C09_calendar.
+
 (* the date functions of the model assume UTC+8: the configured time zone is still Asia/Taipei *)
 Theorem C09_time_zone : TIME_LOCATION = [65; 115; 105; 97; 47; 84; 97; 105; 112; 101; 105].
 Proof. exact tz_is_taipei. Qed.
